@@ -368,6 +368,151 @@ def check_printer_base(r, repo):
                     r.ob("R5.8", f"{rel2} writer of {d.split('.')[-1]} ({_fn(n)})", ok, "printer state is mutated outside the target printers", loc(rel2, n))
 
 
+PY_PREC = {"select": 1, "or": 2, "and": 3, "not": 4, "<": 5, "<=": 5, ">": 5, ">=": 5, "==": 5, "!=": 5, "is": 5, "is not": 5, "|": 6, "^": 7, "&": 8,
+           "<<": 9, ">>": 9, "+": 10, "-": 10, "*": 11, "/": 11, "//": 11, "%": 11, "@": 11, "neg": 12, "pos": 12, "~": 12, "**": 13}
+C_PREC = {"select": 1, "||": 2, "&&": 3, "|": 4, "^": 5, "&": 6, "==": 7, "!=": 7, "<": 8, "<=": 8, ">": 8, ">=": 8, "<<": 9, ">>": 9, "+": 10, "-": 10,
+          "*": 11, "/": 11, "%": 11, "neg": 12, "pos": 12, "not": 12, "~": 12}
+ATOM = 20
+
+
+def _outer_wrapped(text):
+    t = text.strip()
+    if not (t.startswith("(") and t.endswith(")")):
+        return False
+    depth = 0
+    for i, ch in enumerate(t):
+        if ch == "(":
+            depth += 1
+        elif ch == ")":
+            depth -= 1
+            if depth == 0 and i != len(t) - 1:
+                return False
+    return depth == 0
+
+
+def _result_prec(target, text, term):
+    """Binding strength of a template's own result when it is spliced into another template without parentheses."""
+    if _outer_wrapped(text):
+        return ATOM
+    if term[0] != "op":
+        return ATOM
+    prec = PY_PREC if LANG[target] == "python" else C_PREC
+    return prec.get(term[1], 0)
+
+
+def _bare_slots(target, text, term):
+    """Yield (field, context operator, its precedence) for operand fields that are neither parenthesised nor a whole call argument / index."""
+    import re as _re
+
+    protected = set()
+    for m in _re.finditer(r"\{(\d+)\}", text):
+        i, a, b = int(m.group(1)), m.start(), m.end()
+        before = text[:a].rstrip()
+        after = text[b:].lstrip()
+        if before.endswith("(") and after.startswith(")"):
+            protected.add((i, a))
+        elif (before.endswith("(") or before.endswith(",") or before.endswith("[")) and (after.startswith(",") or after.startswith(")") or after.startswith("]")):
+            protected.add((i, a))
+    occurrences = [(int(m.group(1)), m.start()) for m in _re.finditer(r"\{(\d+)\}", text)]
+    bare_fields = [i for (i, a) in occurrences if (i, a) not in protected]
+    if not bare_fields:
+        return
+    prec = PY_PREC if LANG[target] == "python" else C_PREC
+
+    def walk(t, parent):
+        if t[0] == "arg" and t[1] in bare_fields and parent is not None:
+            yield t[1], parent
+        if t[0] == "op":
+            for k, x in enumerate(t[2]):
+                # the middle operand of a C ternary is a full expression: no constraint
+                if t[1] == "select" and LANG[target] != "python" and k == 1:
+                    continue
+                yield from walk(x, t[1])
+        elif t[0] == "call":
+            yield from walk(t[1], "postfix")
+            for x in t[2]:
+                yield from walk(x, None)
+        elif t[0] in ("attr",):
+            yield from walk(t[1], "postfix")
+        elif t[0] == "index":
+            yield from walk(t[1], "postfix")
+            yield from walk(t[2], None)
+
+    for field, op in walk(term, None):
+        yield field, op, (ATOM - 1 if op == "postfix" else prec.get(op, 0))
+
+
+def check_template_composability(r, T, rule="R5.11"):
+    """A template's text is spliced verbatim into the operand fields of other templates.  Wherever a field is used bare (not `({i})`,
+    not a whole call argument), every template of the target must print something that binds tighter than the surrounding operator."""
+    target = T.name
+    parsed = {}
+    for kind, val in T.kinds.items():
+        if isinstance(val, str):
+            try:
+                parsed[kind] = (val, parse_template(target, val))
+            except (TemplateError, AnalysisError):
+                continue
+    slots = []
+    for kind, (val, term) in parsed.items():
+        for field, op, p in _bare_slots(target, val, term):
+            slots.append((kind, field, op, p))
+    if not slots:
+        r.ob(rule, f"{T.rel} every operand field is parenthesised or a call argument", True, "", loc(T.rel, T.kinds_node))
+        return
+    BOOLEAN = {"lt", "le", "gt", "ge", "eq", "ne", "logical_and", "logical_or", "logical_xor", "logical_not", "is_finite", "is_inf", "is_nan", "is_posinf", "is_neginf", "is_negzero"}
+    INTEGER = {"bitwise_and", "bitwise_or", "bitwise_xor", "bitwise_invert", "bitwise_left_shift", "bitwise_right_shift"}
+    CONTAINER = {"list"}
+
+    def category(kind):
+        return "boolean" if kind in BOOLEAN else "integer" if kind in INTEGER else "container" if kind in CONTAINER else "numeric"
+
+    def slot_category(kind, field):
+        if kind == "item":
+            return "container" if field == 0 else "integer"
+        if kind == "select" and field == 0:
+            return "boolean"
+        if kind in ("logical_and", "logical_or", "logical_xor", "logical_not"):
+            return "boolean"
+        if kind in INTEGER:
+            return "integer"
+        return "numeric"
+
+    for kind, (val, term) in parsed.items():
+        rp = _result_prec(target, val, term)
+        relevant = [s_ for s_ in slots if slot_category(s_[0], s_[1]) == category(kind)]
+        if not relevant:
+            continue
+        need = max(p_ for _, _, _, p_ in relevant)
+        worst = [s_ for s_ in relevant if s_[3] == need][0]
+        ok = rp > need
+        r.ob(rule, f"{T.rel}::kind_to_target[{kind}] composes under bare operand fields", ok,
+             f"template `{val}` prints an unparenthesised `{term[1] if term[0] == 'op' else '?'}` expression, but `{worst[0]}` splices operand {{{worst[1]}}} bare next to "
+             f"`{worst[2]}`: {worst[0]}({kind}(...)) is then parsed with the wrong grouping by the target language", T.where(kind))
+
+
+def check_printer_state_not_rebound(r, repo, rule):
+    """PrinterBase.__init__ makes the constant printer share `assignments`/`defined_refs` by aliasing the same list/set object.
+    Rebinding either attribute afterwards silently breaks the sharing: statements and bindings recorded by the constant printer
+    are lost, names stay marked as defined and are printed unbound."""
+    base = repo.tree("targets/base.py")
+    shares = [n for n in ast.walk(base) if isinstance(n, ast.Assign) and any(isinstance(t, ast.Attribute) and t.attr in ("assignments", "defined_refs") and "constant_printer" in norm_src(t) for t in n.targets)]
+    r.ob(rule, "targets/base.py::PrinterBase.__init__ constant printer shares assignments and defined_refs", len(shares) >= 2,
+         "the constant printer no longer shares the statement list / the set of defined names with the main printer", loc("targets/base.py", base))
+    n = 0
+    for rel2 in repo.py_files("targets"):
+        for node in ast.walk(repo.tree(rel2)):
+            if isinstance(node, ast.Attribute) and isinstance(node.ctx, ast.Store) and node.attr in ("assignments", "defined_refs"):
+                f = _fn(node)
+                n += 1
+                ok = f.endswith("__init__")
+                r.ob(rule, f"{rel2} rebinding of {node.attr} in {f}", ok,
+                     f"`{norm_src(getattr(node, '_parent', node))}` rebinds `{node.attr}` outside the constructor: the object shared with the constant printer "
+                     "(PrinterBase.__init__ aliases it) is replaced, so assignments/bindings made through the other printer are lost", loc(rel2, node))
+    if n < 2:
+        raise AnalysisError("printer state attributes `assignments`/`defined_refs` are not assigned anywhere in targets/")
+
+
 def _fn(n):
     names = []
     while n is not None:
@@ -561,17 +706,20 @@ def run(repo, tier):
     r.rule("R5.8", "generic printer: a ref is returned only when defined; assigned once, before use, and then marked defined", floor=8)
     r.rule("R5.9", "every freshly generated reference name is registered, and registration never reuses a name that is taken", floor=5)
     r.rule("R5.10", "operands are substituted into templates in order, unsliced", floor=1)
+    r.rule("R5.11", "templates compose: wherever an operand field is spliced bare, every template of the target binds tighter than the surrounding operator", floor=3)
 
     arities = kind_arities(repo)
     const_names = known_names(repo, "known_constant_names")
     for name in ("python", "numpy", "cpp"):
         T = Target(repo, name)
         check_kind_templates(r, T, arities)
+        check_template_composability(r, T)
         check_constants(r, T, const_names)
         check_types(r, T, {"python": O.PY_TYPES, "numpy": O.NUMPY_TYPES, "cpp": O.CPP_TYPES}[name])
         check_make_constant(r, T, typed_required=(name != "python"))
         if name == "numpy":
             check_cast_tables(r, T)
     check_printer_base(r, repo)
+    check_printer_state_not_rebound(r, repo, "R5.8")
     check_make_ref(r, repo)
     return r
